@@ -7,9 +7,12 @@ for CAVdp the window/gate oracle with the one-panel-per-window slack of the stat
 signal object bit-for-bit unchanged by the call). Everything expected is derived from a snapshot of (values, dt)
 taken at call entry - never from the object's derived caches.
 Trace relations (sign reversal, alpha scaling, zero padding), twin-object / caller-array purity and "first result
-intact after a second call" are evaluated by the driver over the monitored calls.
+intact after a second call" / "f(A); f(B); f(A)" are evaluated by the driver over the monitored calls; so are the
+comparison of every series returned for an object with a history (mutators, assignments through attribute names,
+refused operations, copies and pickles) with the series of a fresh object, and the independence of copies.
 """
 import copy
+import pickle
 import warnings
 import weakref
 
@@ -21,8 +24,9 @@ from vf.oracles import quadrature as Q
 PROP_ID = 'C09'
 TECHNIQUE = ('runtime post-condition monitors on the eight eqsig.im cumulative-measure functions with scalar quadrature '
              'oracles fed from a call-entry snapshot (two-sided knife-edge oracle for the CAVdp gate, bit-for-bit purity of '
-             'the signal object); sign/scale/zero-padding trace relations, same-object histories, twin objects and '
-             'back-to-back calls over the recorded executions')
+             'the signal object); sign/scale/zero-padding trace relations, same-object histories (incl. assignment through '
+             'attribute names and refused operations), fresh-object comparison, copy/deepcopy/pickle independence, twin '
+             'objects and back-to-back / f(A);f(B);f(A) calls over the recorded executions')
 RULE = ('cases = (record, dt) pairs driven through the public eqsig.im functions on eqsig.AccSignal (for the '
         'acceleration-based measures also eqsig.Signal) objects, positionally and by keyword. '
         'Quadrature part: record classes of vf/gen.py (noise, walk, sine, chirp, beat, impulse, hat, step, quake, alt, '
@@ -62,6 +66,27 @@ RULE = ('cases = (record, dt) pairs driven through the public eqsig.im functions
         '1e+-165..1e+-220, gen.special_scale (tiny / huge / 1e-150 vs 1e150 in one record / ripple on a baseline / counts '
         'above 2**24) with the linear measures (CAV, |a|, |v| integrals, CAVdp) and amplitudes 1e-130..1e130 with all '
         'measures, float64 / list containers, rescaled so that nothing the linear measures form leaves 1e-295..1e300. '
+        'Assignment through the public attribute names (round 3): `sig.values = y` on cold / warm objects with y another '
+        'record of the same length, shorter, longer (by 1, 17, one second, up to three seconds), 1-3 entries, or an expression '
+        'of the current values (zeros appended / prepended, scaled, negated, head, tail, every other sample as a view of the '
+        'object\'s own buffer, the buffer itself) in the forms float64 / list / tuple / int16 / int32 / float32 / int list / '
+        'mixed list / strided view / read-only; `sig.dt = ...` (2dt, dt/2, dt, another nice step, np.float64 / np.float32), '
+        'response_times / smooth_fa_freqs / smooth_fa_frequencies with 1-3 entries as list / tuple / array, label, npts; then '
+        'EVERY measure (CAVdp when the record the object then shows is inside its quantifier), a second mutation and more '
+        'measures; the same operations also appear inside the random histories and the twin cases. Whatever `sig.values` '
+        'shows after the assignment is the record (the clean tree ignores the assignment). Operations that raise inside '
+        'histories: reset_values(ragged list), add_series / add_signal with a wrong length, another step, a non-signal (and '
+        'the accepted forms), butter_pass with a corner at / above Nyquist, at 0, negative, scalar or 3 entries; a record with '
+        'nan / inf put in by reset_values, read and measured (counted, not judged), then replaced by a finite one. Every '
+        'series returned inside a history / assignment / twin / derived / protocol scenario is also compared with the same '
+        'measure of a FRESH object built from the values the object showed at call entry and the caller\'s step. Object '
+        'protocols: copy.copy / copy.deepcopy / pickle (protocol 2 and highest) of an AccSignal / Signal / Cluster member in '
+        'the cache states cold, velocity+displacement read, peaks read, Fourier spectrum read, smoothed spectrum read, '
+        'response spectrum read, all measures called; then a mutation (reset_values same / other length, add_constant, '
+        'in-place rebase_displacement; after copy.copy only the rebinding reset_values until the buffers are separate) and all '
+        'measures on the copy and on the original, in both orders. f(A); f(B); f(A): B of the same or another length, the '
+        'third call on the same or a new object. Silent (all-zero) records and strictly one-signed records (no zero, no sign '
+        'change) in both parts. '
         'distinct = digest(values, dt, part); non-trivial = record with a non-zero sample.')
 ASSUMPTIONS = ['NaN-free real records, n >= 1, dt > 0; complex-typed records (raw fas2signal output) are counted, never judged',
                'a record is the sequence of real numbers its container holds: integer containers of any width are '
@@ -81,6 +106,15 @@ ASSUMPTIONS = ['NaN-free real records, n >= 1, dt > 0; complex-typed records (ra
                'deepcopy are judged with the step they store',
                'energy-type measures (Arias, ISV, unit kinetic energy) are judged only where squares of the samples and '
                'velocities are normal doubles (amplitudes within 1e-130..1e130 in the extreme classes)',
+               'the record of an object is what its `values` attribute shows at call entry - after `sig.values = y` that is '
+               'y converted like the constructor would, or the old record when the assignment is ignored (clean tree); after '
+               'an accepted `sig.dt = h` (no setter in the clean tree) h is the caller\'s step; npts / time are not judged '
+               'themselves, only the measures built on them',
+               'the fresh-object comparison uses rtol * final value of the series per sample (1e-10; float32 unit '
+               'round-off for float32 records): two evaluations of one function on equal inputs, so any valid '
+               'implementation passes; silent records must give all-zero series (0 <= tolerance 0 + subnormal floor)',
+               'copy / pickle failures, and what the copied object\'s non-C09 observables (peaks, spectra) show, are not '
+               'judged here; non-finite records are counted, never judged',
                'oracle vf/oracles/quadrature.py is correct (scalar trapezoid / rectangle sums, fsum)']
 RTOL = 1e-10
 EPS32 = float(np.finfo(np.float32).eps)
@@ -109,9 +143,12 @@ DERIVED = 'purity.derived-object-independent'
 DT_KEPT = 'object.dt == dt given (bit-for-bit)'
 TWIN = 'purity.twin-objects+caller-array'
 STATE = 'state.first-result-intact'
+THIRD = 'state.f(A);f(B);f(A)-third==first'
+FRESH = 'history.series==fresh-object(values,dt)'
+PROTO = 'purity.copy/deepcopy/pickle-independent'
 
 
-def _mins(f, cd, rel, pad, pur, twin, state, derived, ctor):
+def _mins(f, cd, rel, pad, pur, twin, state, derived, ctor, fresh, proto, third):
     m = {}
     for k in ('arias', 'cav', 'isv', 'abs_acc', 'abs_vel', 'cad', 'uke'):
         m[FINAL_CLAUSE[k]] = f
@@ -121,13 +158,14 @@ def _mins(f, cd, rel, pad, pur, twin, state, derived, ctor):
               'cavdp.in[0,CAV/g]': int(cd * 0.5), 'cavdp.monotone': int(cd * 0.5), 'cavdp.length': int(cd * 0.5),
               'cavdp.gate-decided-exactly': int(cd * 0.06),
               'relation.sign': rel, 'relation.scale.pow2': rel, 'relation.scale.random': rel, 'relation.zero-pad': pad,
-              PURITY: pur, OWNS: pur, TWIN: twin, STATE: state, DERIVED: derived, DT_KEPT: ctor})
+              PURITY: pur, OWNS: pur, TWIN: twin, STATE: state, DERIVED: derived, DT_KEPT: ctor,
+              FRESH: fresh, PROTO: proto, THIRD: third})
     return m
 
 
 # about 50% of what a normal run reaches
-MIN_EVALS = {'quick': _mins(5500, 1600, 8000, 1500, 45000, 120, 900, 150, 8000),
-             'thorough': _mins(110000, 27000, 160000, 30000, 900000, 2400, 18000, 3000, 160000)}
+MIN_EVALS = {'quick': _mins(5500, 1600, 8000, 1500, 45000, 120, 900, 150, 8000, 19000, 160, 900),
+             'thorough': _mins(110000, 27000, 160000, 30000, 900000, 2400, 18000, 3000, 160000, 380000, 3300, 18000)}
 
 
 def _sig(args, kwargs):
@@ -451,18 +489,131 @@ def _dt_kind(dt):
     return 'float'
 
 
+def _twin_dt(asig):
+    """The caller's step in the form the object holds it (float / np.float32 ...), for building a fresh object."""
+    g = _caller_dt(asig)
+    try:
+        if float(asig.dt).hex() == float(g).hex():
+            return asig.dt
+    except Exception:
+        pass
+    return g
+
+
+def _record_in_domain(values):
+    try:
+        a = np.asarray(values)
+        return bool(a.dtype.kind in 'fiub' and a.ndim == 1 and a.shape[0] >= 1 and np.all(np.isfinite(a.astype(float))))
+    except Exception:
+        return False
+
+
+def _fresh_compare(ctx, eqsig, asig, key, acc0, dt_obj, series):
+    """The series just returned for an object with a history (mutators, assignments through attribute names, refused
+    operations, copies) against the same measure of a FRESH object built from the values the object showed at call
+    entry and the caller's step: the measures are functions of (record, dt) only."""
+    if not _record_in_domain(acc0):
+        return
+    try:
+        dtf = float(dt_obj)
+    except Exception:
+        return
+    acc = np.asarray(acc0, dtype=float)
+    n = acc.shape[0]
+    if not (dtf > 0) or (key == 'cavdp' and not cavdp_in_quantifier(acc, dtf)[0]):
+        return
+    cls_name = type(asig).__name__ if type(asig).__name__ in ('AccSignal', 'Signal') else 'AccSignal'
+    try:
+        with attach.paused():
+            f_sig = getattr(eqsig, cls_name)(np.array(acc0, copy=True), dt_obj)
+            f = np.asarray(getattr(eqsig.im, FN[key])(f_sig), dtype=float)
+    except Exception:
+        ctx.observe('fresh-object-raised(not judged)')
+        return
+    if f.ndim != 1 or f.shape[0] == 0 or not np.all(np.isfinite(f)):
+        ctx.observe('fresh-object-series-not-finite(not judged)')
+        return
+    s = np.asarray(series, dtype=float)
+    rtol = _prec(acc0, n)[0]
+    tol = rtol * abs(float(f[-1])) + _underflow(acc0, n, dtf) + 8 * n * 5e-324
+    okk = s.shape == f.shape and bool(np.all(np.abs(s - f) <= tol))
+    worst = float(np.max(np.abs(s - f))) if s.shape == f.shape else None
+    ctx.check(okk, FRESH, lambda: _wit(key, acc0, dtf, got_shape=list(s.shape), fresh_shape=list(f.shape), max_abs_diff=worst,
+                                       fresh_final=float(f[-1]), tol=tol),
+              '%s on an object with a history: shape %s, a fresh %s of the values it shows (n=%d, dt=%r) gives shape %s, '
+              'largest difference %r (final %r)%s'
+              % (FN[key], s.shape, cls_name, n, dtf, f.shape, worst, float(f[-1]),
+                 ', step %d of a %s scenario' % (len(SCEN['cur'].get('ops', [])), SCEN['cur']['kind']) if SCEN['cur'] else ''))
+
+
+VALUE_FORMS = ('array', 'list', 'tuple', 'f32', 'view', 'readonly')
+
+
+def _as_form(y, form):
+    y = np.asarray(y)
+    if form == 'list':
+        return y.tolist()
+    if form == 'tuple':
+        return tuple(y.tolist())
+    if form == 'f32':
+        return y.astype(np.float32)
+    if form == 'view':
+        buf = np.empty(2 * y.size, dtype=y.dtype)
+        buf[::2] = y
+        buf[1::2] = -7
+        return buf[::2]
+    if form == 'readonly':
+        c = np.array(y, copy=True)
+        c.flags.writeable = False
+        return c
+    return np.array(y, copy=True)
+
+
+def _assigned_values(asig, expr, arg, form):
+    """What the user assigns to `asig.values`: a given container, or an expression of the object's current values."""
+    if expr == 'given':
+        return arg
+    cur = np.asarray(asig.values)
+    if expr == 'pad':
+        y = np.append(cur, np.zeros(int(arg)))
+    elif expr == 'prepad':
+        y = np.append(np.zeros(int(arg)), cur)
+    elif expr == 'scale':
+        y = cur * arg
+    elif expr == 'neg':
+        y = -cur
+    elif expr == 'head':
+        y = cur[:max(1, int(arg))]
+    elif expr == 'tail':
+        y = cur[-max(1, int(arg)):]
+    elif expr == 'every-other':
+        return cur[::2] if form == 'array' else _as_form(cur[::2], form)      # 'array': a strided view of the object's own buffer
+    elif expr == 'self':
+        return asig.values if form == 'array' else _as_form(cur, form)         # the object's own buffer handed back
+    else:
+        raise ValueError(expr)
+    return _as_form(y, form)
+
+
 def _apply(ctx, eqsig, asig, op, out, exact=False):
     """One operation on one object: ['call', key(, 'kw')] (monitored measure), ['stats'] (deprecated object entry point
     calling arias + cav), ['read', attr], ['add_constant', c], ['reset_values', array], ['butter_pass', [lo, hi]],
-    ['method', name, [args]]."""
+    ['method', name, [args]], ['assign_values', expr, arg, form] (asig.values = ...), ['set_attr', name, value]
+    (asig.<name> = value), ['add_series', array], ['add_signal', array or None, dt factor]."""
     kind = op[0]
+    label = kind
     try:
         if kind == 'call':
             key = op[1]
             out[key] = None
             f = getattr(eqsig.im, FN[key])
+            twin = bool(SCEN['cur'] and SCEN['cur'].get('twin'))
+            if twin:
+                acc0, dt_obj = np.array(asig.values, copy=True), _twin_dt(asig)
             r = f(**{PARAM[key]: asig}) if len(op) > 2 and op[2] == 'kw' else f(asig)
             out[key] = np.asarray(r, dtype=float)
+            if twin:
+                _fresh_compare(ctx, eqsig, asig, key, acc0, dt_obj, out[key])
             return r
         if kind == 'stats':
             acc0, dt0 = np.array(asig.values, copy=True), _caller_dt(asig)
@@ -485,16 +636,47 @@ def _apply(ctx, eqsig, asig, op, out, exact=False):
         elif kind == 'reset_values':
             asig.reset_values(op[1])
         elif kind == 'butter_pass':
-            asig.butter_pass(tuple(op[1]))
+            asig.butter_pass(op[1] if not isinstance(op[1], list) else tuple(op[1]))
         elif kind == 'method' and op[1] in METHODS:
+            label = op[1]
             getattr(asig, op[1])(*op[2])
+        elif kind == 'assign_values':
+            label = 'assign_values.' + op[1]
+            before = np.array(asig.values, copy=True)
+            asig.values = _assigned_values(asig, op[1], op[2], op[3])
+            now = np.asarray(asig.values)
+            ctx.observe('assign_values:' + ('record-as-before(ignored or same)' if _bytes_equal(now, before) else 'record-changed'))
+        elif kind == 'set_attr':
+            label = 'set_attr.' + op[1]
+            if op[1] == 'dt':
+                old, value = asig.dt, op[2]
+                asig.dt = value                      # no setter in the clean tree: raises
+                new = asig.dt
+                same_old = type(new) is type(old) and float(new).hex() == float(old).hex()
+                same_new = type(new) is type(value) and float(new).hex() == float(value).hex()
+                ctx.check(same_old or same_new, DT_KEPT, lambda: _wit('cav', asig.values, float(value), assigned=repr(value), stored=repr(new)),
+                          'after `sig.dt = %r` on an object with dt %r the object holds %r (neither of them)' % (value, old, new))
+                if same_new and not same_old:
+                    try:
+                        GIVEN_DT[asig] = float(value)        # an accepted assignment: this is the caller's step from now on
+                    except TypeError:
+                        pass
+            else:
+                setattr(asig, op[1], op[2])
+        elif kind == 'add_series':
+            asig.add_series(op[1])
+        elif kind == 'add_signal':
+            other = None if op[1] is None else eqsig.Signal(op[1], _twin_dt(asig) * op[2])
+            asig.add_signal(other)
         else:
             raise ValueError(kind)
         if kind != 'stats':
-            ctx.observe('history.' + (op[1] if kind == 'method' else kind))
+            ctx.observe('history.' + label)
     except Exception as e:
         if kind == 'call' and np.asarray(asig.values).dtype.kind == 'c':
             ctx.observe('complex-typed record (not judged)')
+        elif kind == 'call' and not _record_in_domain(asig.values):
+            ctx.observe('out-of-domain-call-raised(empty/NaN/not 1-d)')
         elif kind == 'call' and op[1] == 'cavdp' and not cavdp_in_quantifier(np.real(np.asarray(asig.values)).astype(float), _caller_dt(asig))[0]:
             ctx.observe('cavdp.out-of-quantifier-call-raised')      # e.g. after a shorter reset: under 2 s
         elif kind == 'call':
@@ -503,17 +685,18 @@ def _apply(ctx, eqsig, asig, op, out, exact=False):
         elif kind == 'stats':
             ctx.exception('arias.length', _wit('arias', asig.values, asig.dt), e)
         else:
-            ctx.observe('history.%s-raised(not judged by C09)' % (op[1] if kind == 'method' else kind))
+            ctx.observe('history.%s-raised(not judged by C09)' % label)
     return None
 
 
-def run_history(ctx, eqsig, values, dt, ops, exact=False, sigcls='AccSignal'):
+def run_history(ctx, eqsig, values, dt, ops, exact=False, sigcls='AccSignal', twin=False):
     """Drive ONE signal object through a sequence of operations (see _apply). Every monitored call is judged by its
-    normal post-condition against the object's values at that moment. Returns {key: last series returned (or None)}."""
+    normal post-condition against the object's values at that moment; with twin=True every returned series is also
+    compared with the series of a fresh object built from those values. Returns {key: last series returned (or None)}."""
     out = {}
     asig = getattr(eqsig, sigcls)(values, dt)
     SCEN['cur'] = {'kind': 'history', 'acc0': np.array(values), 'dt': float(dt), 'dt_kind': _dt_kind(dt), 'ops': [],
-                   'sigcls': sigcls, 'exact_g': bool(exact)}
+                   'sigcls': sigcls, 'exact_g': bool(exact), 'twin': bool(twin)}
     HINT['exact_g'] = bool(exact)
     try:
         for op in ops:
@@ -536,7 +719,11 @@ def twin_case(ctx, eqsig, x, dt, ops):
     """A and B built from the same caller array, C from A.values; A is driven through `ops` (mutators + measures);
     afterwards the caller array, B, C and every measure of B and C must be bit-for-bit what they were before."""
     x0 = np.array(x, copy=True)
-    SCEN['cur'] = {'kind': 'twin', 'acc0': x0, 'dt': float(dt), 'dt_kind': _dt_kind(dt), 'ops': []}
+    SCEN['cur'] = {'kind': 'twin', 'acc0': x0, 'dt': float(dt), 'dt_kind': _dt_kind(dt), 'ops': [], 'twin': True}
+    # arrays the caller hands to A later on (reset_values, `A.values = y`, add_series): they stay the caller's
+    handed = [(op[0], arr, np.array(arr, copy=True)) for op in ops
+              for arr in ([op[1]] if op[0] in ('reset_values', 'add_series') else [op[2]] if op[0] == 'assign_values' and op[1] == 'given' else [])
+              if isinstance(arr, np.ndarray)]
     try:
         a_sig = eqsig.AccSignal(x, dt)
         b_sig = eqsig.AccSignal(x, dt)
@@ -555,6 +742,10 @@ def twin_case(ctx, eqsig, x, dt, ops):
             bad.append('values of the twin built from the same array')
         if not _bytes_equal(c_sig.values, x0):
             bad.append('values of the twin built from A.values')
+        for kind_h, arr, arr0 in handed:
+            if not _bytes_equal(arr, arr0):
+                bad.append('caller array handed to A by %s' % kind_h)
+                break
         for name, obj in (('B', b_sig), ('C', c_sig)):
             after = {}
             _ = [_apply(ctx, eqsig, obj, ['call', k], after) for k in QUAD_KEYS]
@@ -567,11 +758,13 @@ def twin_case(ctx, eqsig, x, dt, ops):
         SCEN['cur'] = None
 
 
-def back_to_back(ctx, eqsig, x1, x2, dt, keys, kw=False):
-    """Each measure on two different records of the same shape, the first result still held: after the second call
-    the first result must be bit-for-bit what was returned and share no memory with the second."""
+def back_to_back(ctx, eqsig, x1, x2, dt, keys, kw=False, third='same'):
+    """f(A); f(B); f(A): each measure on two different records (same recipe; same or different length), the first
+    result still held. After the second call the first result must be bit-for-bit what was returned and share no
+    memory with the second; the third call - on the same object A (third='same') or on a new object built from the
+    same record (third='fresh') - must return bit-for-bit the first result: a result depends on the arguments only."""
     SCEN['cur'] = {'kind': 'back2back', 'acc0': np.array(x1), 'acc2': np.array(x2), 'dt': float(dt), 'dt_kind': _dt_kind(dt),
-                   'keys': list(keys), 'kw': bool(kw)}
+                   'keys': list(keys), 'kw': bool(kw), 'third': third}
     try:
         s1, s2 = eqsig.AccSignal(x1, dt), eqsig.AccSignal(x2, dt)
         for key in keys:
@@ -586,8 +779,16 @@ def back_to_back(ctx, eqsig, x1, x2, dt, keys, kw=False):
             okk = _bytes_equal(r1, c1) and not np.shares_memory(np.asarray(r1), np.asarray(r2))
             ctx.check(okk, STATE, lambda: {'fn': 'back2back', 'acc': np.array(x1), 'dt': float(dt), 'scenario': _scen(),
                                            'measure': key},
-                      '%s: result for the first record changed (or shares memory) after the call on a second record of '
-                      'the same shape (n=%d)' % (FN[key], len(x1)))
+                      '%s: result for the first record changed (or shares memory) after the call on a second record '
+                      '(n=%d, second n=%d)' % (FN[key], len(x1), len(x2)))
+            s3 = s1 if third == 'same' else eqsig.AccSignal(np.array(x1, copy=True), dt)
+            r3 = _apply(ctx, eqsig, s3, op, {})
+            if r3 is None:
+                continue
+            ctx.check(_bytes_equal(np.asarray(r3), c1), THIRD,
+                      lambda: {'fn': 'back2back', 'acc': np.array(x1), 'dt': float(dt), 'scenario': _scen(), 'measure': key},
+                      '%s: f(A); f(B); f(A) - the third result differs from the first (A n=%d, B n=%d, third on %s object)'
+                      % (FN[key], len(x1), len(x2), 'the same' if third == 'same' else 'a new'))
     finally:
         SCEN['cur'] = None
 
@@ -606,7 +807,7 @@ def derived_case(ctx, eqsig, x, x2, dt, how, param):
     values (a memo carried over from A would show as a wrong final value); D must own its data: correcting D in place
     leaves A's values and every measure of A bit-for-bit what they were."""
     SCEN['cur'] = {'kind': 'derived', 'acc0': np.array(x), 'acc2': np.array(x2), 'dt': float(dt), 'dt_kind': _dt_kind(dt),
-                   'how': how, 'param': param}
+                   'how': how, 'param': param, 'twin': True}
     try:
         x0 = np.array(x, copy=True)
         a_sig = eqsig.AccSignal(x, dt)
@@ -670,6 +871,106 @@ def derived_case(ctx, eqsig, x, x2, dt, how, param):
                 bad.append('%s of the source object' % FN[k])
         ctx.check(not bad, DERIVED, lambda: {'fn': 'derived', 'acc': x0, 'dt': float(dt), 'scenario': _scen(), 'changed': bad},
                   'object derived by %s(%r): %s' % (how, param, ', '.join(bad)))
+    finally:
+        SCEN['cur'] = None
+
+
+PROTOCOLS = ('copy', 'deepcopy', 'pickle')
+WARM_STATES = ('cold', 'velocity', 'peaks', 'spectra', 'smooth', 'response', 'measures')
+WARM_READS = {'velocity': ['velocity', 'displacement'], 'peaks': ['pga', 'pgv', 'pgd'], 'spectra': ['fa_spectrum', 'fa_freqs'],
+              'smooth': ['smooth_fa_spectrum'], 'response': ['s_a', 's_d']}
+MUTATIONS = ('reset', 'add', 'inplace')
+
+
+def _keys_for(sig):
+    keys = list(QUAD_KEYS if hasattr(type(sig), 'velocity') else ACC_KEYS)      # (the class: no lazy read triggered)
+    try:
+        if cavdp_in_quantifier(np.asarray(sig.values, dtype=float), _caller_dt(sig))[0]:
+            keys.append('cavdp')
+    except Exception:
+        pass
+    return keys
+
+
+def _measure_all(ctx, eqsig, sig):
+    out = {}
+    for k in _keys_for(sig):
+        _apply(ctx, eqsig, sig, ['call', k], out)
+    return out
+
+
+def _mutate(ctx, eqsig, sig, how, x2, amp):
+    if how == 'reset':
+        _apply(ctx, eqsig, sig, ['reset_values', x2], {})                       # rebinds the values
+    elif how == 'inplace' and hasattr(sig, 'rebase_displacement'):
+        _apply(ctx, eqsig, sig, ['method', 'rebase_displacement', []], {})      # in place: self._values -= ...
+    else:
+        _apply(ctx, eqsig, sig, ['add_constant', 0.37 * amp], {})
+
+
+def protocol_case(ctx, eqsig, x, x2, dt, how, state, order, mut, sigcls='AccSignal', src='plain'):
+    """copy.copy / copy.deepcopy / pickle round trip of a signal object in a given cache state, then mutators and measures
+    on the copy AND on the original, in both orders. Every measure of either object is judged by the normal
+    post-conditions against that object's OWN current values and against a fresh object (a memo, a validity flag or a
+    buffer carried over or shared shows there); the object that was not touched must keep its values bit-for-bit, and
+    the measures of the first object must not move when the second one is mutated afterwards."""
+    SCEN['cur'] = {'kind': 'protocol', 'acc0': np.array(x), 'acc2': np.array(x2), 'dt': float(dt), 'dt_kind': _dt_kind(dt),
+                   'how': how, 'state': state, 'order': order, 'mut': mut, 'sigcls': sigcls, 'src': src, 'twin': True}
+    try:
+        if src == 'cluster':
+            a_sig = eqsig.Cluster([np.array(x), np.array(x2)], dt, stypes='acc').signal_by_index(0)
+        else:
+            a_sig = getattr(eqsig, sigcls)(x, dt)
+        amp = float(np.max(np.abs(np.asarray(x, dtype=float)))) or 1.0
+        if state == 'measures':
+            _measure_all(ctx, eqsig, a_sig)
+        else:
+            for attr in WARM_READS.get(state, []):
+                _apply(ctx, eqsig, a_sig, ['read', attr], {})
+        v0 = np.array(a_sig.values, copy=True)
+        try:
+            if how == 'copy':
+                d_sig = copy.copy(a_sig)
+            elif how == 'deepcopy':
+                d_sig = copy.deepcopy(a_sig)
+            elif how == 'pickle':
+                d_sig = pickle.loads(pickle.dumps(a_sig, protocol=[2, pickle.HIGHEST_PROTOCOL][len(v0) % 2]))
+            else:
+                raise ValueError(how)
+        except ValueError:
+            raise
+        except Exception:
+            ctx.observe('protocol.%s-raised(not judged by C09)' % how)
+            return
+        ctx.observe('protocol.' + how)
+        ctx.observe('protocol.cache-state.' + state)
+        bad = []
+        if not _bytes_equal(d_sig.values, v0):
+            bad.append('the copy does not hold the record of the original')
+        shared = bool(np.shares_memory(np.asarray(a_sig.values), np.asarray(d_sig.values)))
+        if shared and how != 'copy':
+            bad.append('%s shares the value buffer with the original' % how)
+        first, second = (d_sig, a_sig) if order == 'copy-first' else (a_sig, d_sig)
+        names = ('copy', 'original') if order == 'copy-first' else ('original', 'copy')
+        _mutate(ctx, eqsig, first, 'reset' if shared else mut, x2, amp)
+        out1 = _measure_all(ctx, eqsig, first)                 # judged against its own values + fresh object
+        if not _bytes_equal(second.values, v0):
+            bad.append('values of the untouched %s after the %s was mutated' % (names[1], names[0]))
+        _measure_all(ctx, eqsig, second)                       # still the old record: judged against it
+        if not np.shares_memory(np.asarray(first.values), np.asarray(second.values)):
+            v1 = np.array(first.values, copy=True)
+            _mutate(ctx, eqsig, second, mut if mut != 'reset' else 'inplace', x2, amp)
+            _measure_all(ctx, eqsig, second)
+            if not _bytes_equal(first.values, v1):
+                bad.append('values of the %s after the %s was corrected in place' % (names[0], names[1]))
+            again = _measure_all(ctx, eqsig, first)
+            for k, s1 in out1.items():
+                if s1 is None or again.get(k) is None or not _bytes_equal(s1, again[k]):
+                    bad.append('%s of the %s after the %s was mutated' % (FN[k], names[0], names[1]))
+        else:
+            ctx.observe('protocol.objects-still-share-values(in-place step skipped)')
+        ctx.check(not bad, PROTO, lambda: {'fn': 'protocol', 'acc': np.array(x), 'dt': float(dt), 'scenario': _scen(), 'changed': bad},
+                  '%s of a %s %s (%s): %s' % (how, state, type(a_sig).__name__, order, '; '.join(bad)))
     finally:
         SCEN['cur'] = None
 
@@ -883,8 +1184,8 @@ def cavdp_case(rng, cls=None, long=False):
     extra = 0 if rng.random() < 0.3 else int(rng.integers(0, pps))
     n = nwin * pps + 1 + extra
     if cls is None:
-        cls = ['envelope-noise', 'all-below', 'quake', 'exact-gate', 'boundary-spike', 'generic', 'near-gate-inexact'][
-            int(rng.choice(7, p=[0.22, 0.12, 0.1, 0.2, 0.2, 0.11, 0.05]))]
+        cls = ['envelope-noise', 'all-below', 'quake', 'exact-gate', 'boundary-spike', 'generic', 'near-gate-inexact', 'silent'][
+            int(rng.choice(8, p=[0.21, 0.11, 0.1, 0.2, 0.2, 0.11, 0.05, 0.02]))]
     if pps < 4 and cls in ('exact-gate', 'boundary-spike', 'near-gate-inexact'):
         cls = 'envelope-noise'
     t = np.arange(n) * dt
@@ -957,6 +1258,8 @@ def cavdp_case(rng, cls=None, long=False):
                 d = int(rng.integers(1, max(2, min(w, pps - 1))))
                 x[w * pps - d] = rng.uniform(0.03, 0.08) * rng.choice([-1.0, 1.0])
         x = x * G
+    elif cls == 'silent':
+        x = np.zeros(n)                            # a silent channel is a valid record: every measure is identically 0
     else:
         raise ValueError(cls)
     x = np.asarray(x, dtype=float)
@@ -964,6 +1267,10 @@ def cavdp_case(rng, cls=None, long=False):
         x, tag = reshape(rng, x)
         if tag:
             cls += '+' + tag
+    elif cls in ('envelope-noise', 'quake', 'generic', 'all-below') and rng.random() < 0.1 and np.any(x != 0):
+        # strictly one-signed: no zero sample and no sign change anywhere
+        x = float(rng.choice([-1.0, 1.0])) * (np.abs(x) + float(np.max(np.abs(x))) * float(rng.choice([1e-9, 1e-3, 0.5])))
+        cls += '+strictly-one-signed'
     if cls in ('envelope-noise', 'quake', 'generic', 'boundary-spike') and rng.random() < 0.4:
         # the extreme of the record at the first sample, the last sample (outside every window when the record has a
         # partial last second), the end of the last window, or on a boundary shared by two windows
@@ -982,12 +1289,12 @@ HIST_CLASSES = ['sine', 'chirp', 'beat', 'noise', 'quake', 'alt', 'intnoise', 'z
 READS = ['velocity', 'displacement', 'pgv', 'pgd', 'pga']
 
 
-def history_case(rng):
-    """One record + a random same-object history: 3..8 monitored calls drawn with repeats from all measures (CAVdp
-    when the record is inside its quantifier), interleaved with reads of derived series and public mutators.
-    Returns (acc, dt, ops, class, number of sign changes of the velocity, signal class)."""
+def _hist_record(rng, in_dom=None):
+    """(x, dt, n, pps or None, class, in_dom): the record of a history; in_dom = inside the CAVdp quantifier."""
     cls = HIST_CLASSES[int(rng.integers(len(HIST_CLASSES)))]
-    in_dom = rng.random() < 0.5
+    if in_dom is None:
+        in_dom = rng.random() < 0.5
+    pps = None
     if in_dom:
         dt = CAVDP_NICE_DT[int(rng.integers(len(CAVDP_NICE_DT)))] if rng.random() < 0.7 else \
             1.0 / CAVDP_RECIP_K[int(rng.integers(len(CAVDP_RECIP_K)))]
@@ -1007,16 +1314,119 @@ def history_case(rng):
     m = float(np.max(np.abs(x)))
     if in_dom and m > 0:
         x = x * (G * GATE * rng.uniform(0.5, 6.0) / m)
-        m = float(np.max(np.abs(x)))
+    return x, dt, n, pps, cls, in_dom
+
+
+def _other_record(rng, length, amp):
+    y, _ = gen.record(rng, length, cls=HIST_CLASSES[int(rng.integers(len(HIST_CLASSES)))])
+    return np.asarray(y, dtype=float) * (amp / max(float(np.max(np.abs(y))), 1e-300))
+
+
+ASSIGN_CONTAINERS = ['f64', 'list', 'tuple', 'i16', 'i32', 'f32', 'list-int', 'view', 'readonly', 'mixed']
+ASSIGN_EXPRS = ['given-same', 'given-shorter', 'given-longer', 'given-few', 'pad', 'prepad', 'scale', 'neg', 'head', 'tail',
+                'every-other', 'self']
+
+
+def assign_op(rng, n, pps, amp, expr=None):
+    """`sig.values = ...` in every container form the constructor accepts: another record of the same length, a shorter
+    one, a longer one, 1-3 entries; or an expression of the current values (zero padding at either end, scaling, sign
+    reversal, a cut, every other sample, the object's own array). In the clean tree the assignment is silently ignored;
+    whatever `sig.values` shows afterwards is the record every later measure is judged against."""
+    if expr is None:
+        expr = ASSIGN_EXPRS[int(rng.choice(len(ASSIGN_EXPRS), p=[.12, .12, .14, .05, .14, .05, .07, .05, .08, .06, .06, .06]))]
+    sec = pps if pps else max(1, n // 4)
+    if expr.startswith('given'):
+        if expr == 'given-same':
+            length = n
+        elif expr == 'given-shorter':
+            length = [max(2, n // 2), max(2, n - sec), max(2, n - 1), max(2, n - int(rng.integers(1, sec + 1)))][int(rng.integers(4))]
+        elif expr == 'given-longer':
+            length = [n + 17, n + sec, n + 1, n + int(rng.integers(1, 3 * sec + 1))][int(rng.integers(4))]
+        else:
+            length = int(rng.integers(1, 4))
+        y = _other_record(rng, length, amp)
+        ckind = ASSIGN_CONTAINERS[int(rng.integers(len(ASSIGN_CONTAINERS)))]
+        cont, _ = to_container(rng, y, ckind)
+        return ['assign_values', 'given', cont, ckind], expr + '/' + ckind
+    form = VALUE_FORMS[int(rng.integers(len(VALUE_FORMS)))]
+    if expr in ('pad', 'prepad'):
+        arg = int([1, 7, sec, 2 * sec + 3, int(rng.integers(1, 3 * sec + 1))][int(rng.integers(5))])
+    elif expr == 'scale':
+        arg = float(rng.choice([2.0, 0.5, -1.0, 9.81, 1 / 9.81, 0.01]))
+    elif expr in ('head', 'tail'):
+        arg = int([n - 1, n - sec, n // 2, n - int(rng.integers(1, sec + 1))][int(rng.integers(4))])
+        arg = max(2, arg)
+    else:
+        arg = None
+    return ['assign_values', expr, arg, form], expr + '/' + form
+
+
+def attr_op(rng, dt):
+    """Assignment through the other public attribute names (dt has no setter in the clean tree: the attempt raises)."""
+    u = rng.random()
+    if u < 0.45:
+        new = [dt * 2, dt / 2, dt, 0.01, 0.02, 0.005, np.float64(dt * 2), np.float32(dt)][int(rng.integers(8))]
+        return ['set_attr', 'dt', new]
+    few = [float(v) for v in np.sort(rng.uniform(0.2, 4.0, size=int(rng.integers(1, 4))))]
+    few = [few, tuple(few), np.array(few)][int(rng.integers(3))]
+    if u < 0.6:
+        return ['set_attr', 'response_times', few]
+    if u < 0.75:
+        return ['set_attr', ['smooth_fa_freqs', 'smooth_fa_frequencies'][int(rng.integers(2))], few]
+    if u < 0.85:
+        return ['set_attr', 'label', 'renamed']
+    return ['set_attr', 'npts', int(rng.integers(1, 50))]
+
+
+def raising_ops(rng, n, dt, amp, pool=QUAD_KEYS):
+    """An operation the clean code refuses (the object must be as it was, or completely updated), or a non-finite record
+    accepted silently and replaced later on."""
+    u = rng.random()
+    if u < 0.16:
+        return [['reset_values', [[0.1 * amp, 0.2 * amp], [0.3 * amp]]]]                     # ragged: np.array raises
+    if u < 0.36:
+        length = [n, n + 1, max(1, n - 1), 2 * n][int(rng.integers(4))]                      # same length: accepted
+        return [['add_series', _other_record(rng, length, amp)]]
+    if u < 0.56:
+        v = rng.random()
+        if v < 0.2:
+            return [['add_signal', None, 1.0]]                                               # not a Signal
+        length, fac = [(n, 1.0), (n, 2.0), (n + 3, 1.0), (n, 1.0 + 2.0 ** -40)][int(rng.integers(4))]
+        return [['add_signal', _other_record(rng, length, amp), fac]]
+    if u < 0.76:
+        nyq = 0.5 / dt
+        return [['butter_pass', [[0.1 * nyq, 1.2 * nyq], [0.1 * nyq, nyq], [0.0, 0.5 * nyq], [0.1 * nyq, 0.2 * nyq, 0.3 * nyq],
+                                 0.2 * nyq, [-0.1 * nyq, 0.5 * nyq]][int(rng.integers(6))]]]
+    y = _other_record(rng, [n, n, n + 5][int(rng.integers(3))], amp)
+    y[int(rng.integers(len(y)))] = [np.nan, np.inf, -np.inf][int(rng.integers(3))]
+    keys = [k for k in pool if k != 'cavdp']
+    key = keys[int(rng.integers(len(keys)))]
+    return [['reset_values', y], ['read', READS[int(rng.integers(len(READS)))]], ['call', key],
+            ['reset_values', _other_record(rng, [n, len(y)][int(rng.integers(2))], amp)]]
+
+
+def history_case(rng):
+    """One record + a random same-object history: 3..8 monitored calls drawn with repeats from all measures (CAVdp
+    when the record is inside its quantifier), interleaved with reads of derived series, public mutators, assignments
+    through the public attribute names and operations that raise.
+    Returns (acc, dt, ops, class, number of sign changes of the velocity, signal class)."""
+    x, dt, n, pps, cls, in_dom = _hist_record(rng)
+    m = float(np.max(np.abs(x)))
     sigcls = 'Signal' if rng.random() < 0.1 else 'AccSignal'
     pool = (QUAD_KEYS if sigcls == 'AccSignal' else ACC_KEYS) + (['cavdp'] if in_dom else [])
     amp = m if m > 0 else 1.0
 
     def other(length):
-        y, _ = gen.record(rng, length, cls=HIST_CLASSES[int(rng.integers(len(HIST_CLASSES)))])
-        return np.asarray(y, dtype=float) * (amp / max(float(np.max(np.abs(y))), 1e-300))
+        return _other_record(rng, length, amp)
     ops = []
     for _ in range(int(rng.integers(3, 9))):
+        w = rng.random()
+        if w < 0.12:
+            ops.append(assign_op(rng, n, pps, amp)[0])
+        elif w < 0.18:
+            ops.append(attr_op(rng, dt))
+        elif w < 0.28:
+            ops.extend(raising_ops(rng, n, dt, amp, pool))
         u = rng.random()
         if u < 0.22 and sigcls == 'AccSignal':
             ops.append(['read', READS[int(rng.integers(len(READS)))]])
@@ -1035,6 +1445,45 @@ def history_case(rng):
     v = np.concatenate([[0.0], np.cumsum(0.5 * dt * (x[1:] + x[:-1]))])
     sg = np.sign(v[v != 0])
     return x, dt, ops, cls, int(np.sum(sg[1:] != sg[:-1])), sigcls
+
+
+def assign_case(rng):
+    """Assignment through an attribute name as the subject: an object in some cache state, `sig.values = ...` (or
+    `sig.dt = ...`), then EVERY measure (CAVdp when the record the object then shows is inside its quantifier), a second
+    mutation, some measures again. Returns (x, dt, ops, class, signal class)."""
+    x, dt, n, pps, cls, in_dom = _hist_record(rng, in_dom=rng.random() < 0.7)
+    amp = float(np.max(np.abs(x))) or 1.0
+    sigcls = 'Signal' if rng.random() < 0.12 else 'AccSignal'
+    pool = list(QUAD_KEYS if sigcls == 'AccSignal' else ACC_KEYS) + (['cavdp'] if in_dom else [])
+    ops = []
+    u = rng.random()
+    if u < 0.3:
+        pass                                                    # cold object
+    elif u < 0.55 and sigcls == 'AccSignal':
+        ops += [['read', a] for a in rng.permutation(READS)[:int(rng.integers(1, 4))].tolist()]
+    elif u < 0.8:
+        ops += [['call', k] for k in rng.permutation(pool)[:int(rng.integers(1, len(pool) + 1))].tolist()]
+    else:
+        ops += [['read', 'fa_spectrum'], ['read', 'smooth_fa_spectrum']]
+    if rng.random() < 0.85:
+        op, tag = assign_op(rng, n, pps, amp)
+    else:
+        op = ['set_attr', 'dt', [dt * 2, dt / 2, dt, np.float64(dt / 2), 1.0 / (2 * pps) if pps else dt * 4][int(rng.integers(5))]]
+        tag = 'dt'
+    ops.append(op)
+    ops += [['call', k] + (['kw'] if rng.random() < 0.2 else []) for k in rng.permutation(pool).tolist()]
+    v = rng.random()
+    if v < 0.25:
+        ops.append(assign_op(rng, n, pps, amp)[0])
+    elif v < 0.45:
+        ops.append(['reset_values', _other_record(rng, [n, n + 17, max(2, n // 2)][int(rng.integers(3))], amp)])
+    elif v < 0.6 and sigcls == 'AccSignal':
+        ops.append(['method', 'rebase_displacement', []])
+    elif v < 0.75:
+        ops.append(['add_constant', float(rng.uniform(-0.3, 0.3) * amp)])
+    if v < 0.75:
+        ops += [['call', k] for k in rng.permutation(pool)[:3].tolist()]
+    return x, dt, ops, cls + ':' + tag, sigcls
 
 
 QUAD_N = [1, 2, 3, 4, 5, 7, 8, 9, 13, 15, 16, 17, 31, 32, 33, 50, 63, 64, 65, 127, 128, 129, 200, 255, 256, 257, 511,
@@ -1088,6 +1537,14 @@ def quadrature_case(rng, n=None):
     if x[-1] != 0 and rng.random() < 0.3:
         x[-1] = 0.0
         cls += '+endzero'
+    u = rng.random()
+    if u < 0.02:
+        x = np.zeros(n)                            # a silent channel is a valid record: every measure is identically 0
+        cls += '+silent'
+    elif u < 0.06 and np.any(x != 0):
+        # strictly one-signed: no zero sample and no sign change anywhere
+        x = float(rng.choice([-1.0, 1.0])) * (np.abs(x) + float(np.max(np.abs(x))) * float(rng.choice([1e-9, 1e-3, 0.5])))
+        cls += '+strictly-one-signed'
     u = rng.random()
     if u < 0.2:
         dt = float(10.0 ** rng.uniform(-9, 3))
@@ -1199,6 +1656,8 @@ def run_shard(ctx):
     n_derived = (480 if quick else 9600) // ctx.nshards
     n_extreme = (320 if quick else 6400) // ctx.nshards
     n_long = 1 if quick else 4
+    n_assign = (640 if quick else 12800) // ctx.nshards
+    n_proto = (336 if quick else 6720) // ctx.nshards
     # -- CAVdp part -------------------------------------------------------------------------------------------
     for c in range(n_cavdp + 1):
         x, dt, cls, exact = cavdp_case(rng, long=(c == n_cavdp))
@@ -1224,7 +1683,34 @@ def run_shard(ctx):
                  sample={'fn': 'same-object history', 'n': len(x), 'dt': dt, 'class': cls, 'velocity_sign_changes': nsign,
                          'signal_class': sigcls,
                          'ops': [op if op[0] != 'reset_values' else ['reset_values', '<array of %d>' % len(op[1])] for op in ops]})
-        run_history(ctx, eqsig, cont, dt, ops, sigcls=sigcls)
+        run_history(ctx, eqsig, cont, dt, ops, sigcls=sigcls, twin=True)
+    # -- assignment through the public attribute names --------------------------------------------------------
+    for c in range(n_assign):
+        x, dt, ops, cls, sigcls = assign_case(rng)
+        ckind = 'f64' if rng.random() < 0.7 else ['list', 'tuple', 'view', 'readonly', 'f32'][int(rng.integers(5))]
+        cont, xr = to_container(rng, x, ckind)
+        ctx.case(core.digest(xr, dt, repr(core.jsonable(ops)), 'assign'), nontrivial=bool(np.any(xr != 0)),
+                 cls='assign-' + cls.split(':')[1].split('/')[0],
+                 sample={'fn': 'assignment through an attribute name, then every measure', 'n': len(xr), 'dt': dt, 'class': cls,
+                         'signal_class': sigcls, 'container': ckind,
+                         'ops': [op if op[0] not in ('reset_values', 'assign_values', 'add_series', 'add_signal') else
+                                 [op[0], op[1] if op[0] == 'assign_values' else '<array>'] for op in ops]})
+        run_history(ctx, eqsig, cont, dt, ops, sigcls=sigcls, twin=True)
+    # -- copy / deepcopy / pickle of an object in every cache state ----------------------------------------------
+    for c in range(n_proto):
+        x1, dt, _, _, cls, _ = _hist_record(rng)
+        x2 = _other_record(rng, [len(x1), len(x1), len(x1) + 17, max(2, len(x1) // 2)][int(rng.integers(4))], float(np.max(np.abs(x1))) or 1.0)
+        how = PROTOCOLS[c % 3]
+        state = WARM_STATES[(c // 3) % len(WARM_STATES)]
+        order = ['copy-first', 'orig-first'][int(rng.integers(2))]
+        mut = MUTATIONS[int(rng.integers(3))]
+        sigcls = 'Signal' if rng.random() < 0.12 else 'AccSignal'
+        src = 'cluster' if (sigcls == 'AccSignal' and len(x2) == len(x1) and rng.random() < 0.15) else 'plain'
+        ctx.case(core.digest(x1, x2, dt, how, state, order, mut, sigcls, src, 'protocol'), nontrivial=bool(np.any(x1 != 0)),
+                 cls='protocol-%s/%s' % (how, state),
+                 sample={'fn': 'copy protocol', 'n': len(x1), 'dt': dt, 'how': how, 'cache_state': state, 'order': order,
+                         'mutation': mut, 'signal_class': sigcls, 'source': src})
+        protocol_case(ctx, eqsig, x1, x2, dt, how, state, order, mut, sigcls=sigcls, src=src)
     # -- twin objects and back-to-back calls ------------------------------------------------------------------
     for c in range(n_twin):
         x, dt, ops, cls, nsign, _ = history_case(rng)
@@ -1233,13 +1719,15 @@ def run_shard(ctx):
         twin_case(ctx, eqsig, x, dt, ops)
     for c in range(n_b2b):
         x1, dt, _, cls, _, _ = history_case(rng)
-        x2, _ = gen.record(rng, len(x1))
+        in_dom, pps = Q.samples_per_second(float(dt))
+        n2 = len(x1) if c % 4 != 3 else len(x1) + [1, 17, pps if in_dom else 5, len(x1)][int(rng.integers(4))]     # other shape
+        x2, _ = gen.record(rng, n2)
         m2 = float(np.max(np.abs(x2)))
         x2 = np.asarray(x2, dtype=float) * ((np.max(np.abs(x1)) or 1.0) / (m2 if m2 > 0 else 1.0))
-        in_dom, pps = Q.samples_per_second(float(dt))
         keys = QUAD_KEYS + (['cavdp'] if in_dom and len(x1) - 1 >= 2 * pps else [])
-        ctx.case(core.digest(x1, x2, dt, 'b2b'), nontrivial=bool(np.any(x1 != 0) and np.any(x1 != x2)), cls='back2back-' + cls)
-        back_to_back(ctx, eqsig, x1, x2, dt, keys, kw=(c % 3 == 0))
+        ctx.case(core.digest(x1, x2, dt, 'b2b'), nontrivial=bool(np.any(x1 != 0) and (len(x1) != len(x2) or np.any(x1 != x2))),
+                 cls='back2back-' + cls + ('' if n2 == len(x1) else '(other shape)'))
+        back_to_back(ctx, eqsig, x1, x2, dt, keys, kw=(c % 3 == 0), third=['same', 'fresh'][c % 2])
     for c in range(n_derived):
         x1, dt, _, cls, _, _ = history_case(rng)
         x2, _ = gen.record(rng, len(x1))
@@ -1287,13 +1775,17 @@ def replay(w):
         dt = _mk_dt(sc['dt'], sc.get('dt_kind', 'float'))
         if sc['kind'] == 'history':
             run_history(ctx, eqsig, np.asarray(sc['acc0']), dt, sc['ops'], exact=sc.get('exact_g', False),
-                        sigcls=sc.get('sigcls', 'AccSignal'))
+                        sigcls=sc.get('sigcls', 'AccSignal'), twin=sc.get('twin', False))
         elif sc['kind'] == 'twin':
             twin_case(ctx, eqsig, np.asarray(sc['acc0']), dt, sc['ops'])
         elif sc['kind'] == 'derived':
             derived_case(ctx, eqsig, np.asarray(sc['acc0']), np.asarray(sc['acc2']), dt, sc['how'], sc.get('param'))
         elif sc['kind'] == 'back2back':
-            back_to_back(ctx, eqsig, np.asarray(sc['acc0']), np.asarray(sc['acc2']), dt, sc['keys'], kw=sc.get('kw', False))
+            back_to_back(ctx, eqsig, np.asarray(sc['acc0']), np.asarray(sc['acc2']), dt, sc['keys'], kw=sc.get('kw', False),
+                         third=sc.get('third', 'same'))
+        elif sc['kind'] == 'protocol':
+            protocol_case(ctx, eqsig, np.asarray(sc['acc0']), np.asarray(sc['acc2']), dt, sc['how'], sc['state'], sc['order'],
+                          sc['mut'], sigcls=sc.get('sigcls', 'AccSignal'), src=sc.get('src', 'plain'))
         else:
             raise ValueError(sc['kind'])
     else:
